@@ -137,6 +137,16 @@ def eval_benign(bid, k):
     results = re.findall(r"test result: (\w+)\. (\d+) passed; (\d+) failed", out)
     meta["existing_tests_with_patch"] = {"ok": all(r[0] == "ok" for r in results) and len(results) > 0, "results": results}
     claimed = [x["property_id"] for x in json.load(open("/verif/MANIFEST.json"))["checks"]]
+    if os.environ.get("BENIGN_RELATED"):
+        # second pass (after the checks were strengthened): the checks that exercise the touched layer
+        layer = {"core/src/timeline": ["C01", "C02", "C05", "C07", "C08", "C09", "C10", "C11", "C12", "C15", "C17", "C20"], "core/src/time_scale": ["C01", "C02", "C03", "C07", "C10", "C20"], "core/src/animator": ["C04", "C05", "C06", "C07", "C08", "C16", "C20"], "macros/src/fn_": ["C15", "C16"], "macros/src/derive": ["C17", "C08", "C01", "C16"], "bevy/src": ["C18", "C19"], "core/src/easing": ["C13", "C01", "C10"], "core/src/interpolation": ["C14", "C01", "C02", "C04", "C20"], "core/src/glam": ["C14"]}
+        want = []
+        for t in touched:
+            for key, cs in layer.items():
+                if t.startswith(key):
+                    want += [c for c in cs if c not in want]
+        claimed = [c for c in claimed if c in want] or claimed
+        meta["checks_run"] = "layer-related subset (second pass)"
     res = {}
     for c in claimed:
         t0 = time.time()
@@ -190,7 +200,7 @@ def main():
                 for c, r in m.get("checks", {}).items():
                     if r["exit"] != 0 or r["notes"]:
                         print(f"     {c}: exit {r['exit']} {r['notes']} {r['detail'][:500]}", flush=True)
-                out = f"/verif/seeded/benign/{bid}-{k}"
+                out = f"/verif/seeded/benign{'2' if os.environ.get('BENIGN_RELATED') else ''}/{bid}-{k}"
                 os.makedirs(out, exist_ok=True)
                 if os.path.exists(m["patch"]):
                     shutil.copy(m["patch"], f"{out}/patch.diff")
